@@ -236,6 +236,12 @@ def rand_name(rnd):
 
 BAD_CLOCKS = ["1:5", "7:05", "21:00:30", " 21:00", "21:00 ", "2100", "24:00", "23:60", "", "ab:cd", "21:", "::", "21:0x",
               "-1:00", "9:9", "09:9 ", "\t3:07", "23:59", "00:00", "021:00", "21:000", "٢١:٠٠", "21;00", ":30", "12:60", "25:00"]
+# decorated clock readings: a valid H:M with something before or after it (seconds, fractions, zone designators, am/pm, blanks,
+# separators).  Whether one is inside the grammar is decided by the judge, not here
+_SUF = [":00", ":0", ":30", ":59", ":00:00", ":00.000", ".0", ".5", " ", "\n", "\x00", "Z", "z", "+00:00", "+0000", " AM", " PM", "am", "h", ":", "'", " UTC", "\u200b", "0", "00"]
+_PRE = [" ", "\n", "T", "t", "+", "-", "0", "00", "\ufeff", ":", "1970-01-01 ", "1970-01-01T"]
+BAD_CLOCKS += sorted({b + x for b in ("21:00", "7:05", "00:00", "9:9", "23:59") for x in _SUF} | {x + b for b in ("21:00", "7:05", "0:00", "9:9") for x in _PRE}
+                     | {b.replace(":", x) for b in ("21:00", "7:05") for x in (".", "-", " ", "：", "h", "::", ": ", " :", ":\u200b")})
 def rand_clock(rnd, bad=0.3):
     if rnd.random() >= bad: return "%02d:%02d" % (rnd.randrange(24), rnd.randrange(60))
     return rnd.choice(BAD_CLOCKS)
